@@ -116,6 +116,13 @@ pub fn run(ctx: &'static Ctx) {
                 bad_ids.push(v.into_iter().collect());
             }
         }
+        for pos in 0..7 {
+            for c in ['\u{131}', '\u{ff11}', '\u{e9}', '\u{141}'] {
+                let mut v: Vec<char> = bg.chars().collect();
+                v[pos] = c;
+                bad_ids.push(v.into_iter().collect());
+            }
+        }
         // every length 0..=12 other than 7
         for len in 0..=12usize {
             if len != 7 {
@@ -198,6 +205,23 @@ pub fn run(ctx: &'static Ctx) {
             let mut s = good.as_bytes().to_vec();
             s[*p] = c;
             refuse(std::str::from_utf8(&s).unwrap(), "non-hex");
+        }
+    }
+    // non-ASCII look-alikes: characters whose low byte (or whose glyph) is a hex digit or a dash must be refused too
+    for p in &hexpos {
+        for c in ['\u{131}', '\u{141}', '\u{166}', '\u{663}', '\u{e9}', '\u{ff11}', '\u{661}', '\u{1d7d9}'] {
+            let mut v: Vec<char> = good.chars().collect();
+            v[*p] = c;
+            let s: String = v.into_iter().collect();
+            refuse(&s, "non-ascii-digit");
+        }
+    }
+    for p in [8usize, 13, 18, 23] {
+        for c in ['\u{12d}', '\u{202d}', '\u{2010}', '\u{2212}', '\u{ff0d}'] {
+            let mut v: Vec<char> = good.chars().collect();
+            v[p] = c;
+            let s: String = v.into_iter().collect();
+            refuse(&s, "non-ascii-dash");
         }
     }
     ctx.st(u + mal + bad);
